@@ -13,7 +13,7 @@ Error paths are mirrored with `Except Err` (numpy `IndexError`, `ValueError` of 
 -/
 namespace SnaxVerif.Sched
 
-inductive Err | indexError | valueError | zeroDivision | assertion | outOfFuel | certificate
+inductive Err | indexError | valueError | zeroDivision | assertion | outOfFuel | certificate | runtime
 deriving DecidableEq, Repr
 
 /-- one operand: `A` by rows and `b`; `rows.length = b.length`, every row has one entry per dimension -/
@@ -382,5 +382,45 @@ def backtrackFirst (mtch : Template → Schedule → Except Err Bool) (checks : 
 default constraints; `none` = `StopIteration` -/
 def autoflowFirst (sizes : List Nat) (tmpl : Template) (fuel : Nat) (s : Schedule) : Except Err (Option Schedule) :=
   backtrackFirst matchesQ [isPureOutputStationary, isMemoryFlexibleEnough sizes] tmpl fuel (canonicalize s) 1
+
+/-! ## accelerator templates (`get_template` of snax_alu.py and snax_gemmx.py) as tables -/
+
+/-- what `get_template` looks at: the kernel op inside each `dart.generic` of the operation's body, in order -/
+inductive KOp | qmac | mac | add | rescale | other
+deriving DecidableEq, Repr
+
+/-- `SNAXAluAccelerator.get_template`: three operands `(y) -> (y)` on 4 lanes -/
+def aluTemplate : Template := ⟨[some 4], List.replicate 3 ⟨[[1]], [0]⟩⟩
+
+def opMK : Operand := ⟨[[1, 0, 0], [0, 0, 1]], [0, 0]⟩
+def opKN : Operand := ⟨[[0, 0, 1], [0, 1, 0]], [0, 0]⟩
+def opMN : Operand := ⟨[[1, 0, 0], [0, 1, 0]], [0, 0]⟩
+def op2 : Operand := ⟨[[1, 0], [0, 1]], [0, 0]⟩
+
+/-- `SNAXGEMMXAccelerator.get_template` for an array of `m x n x k`: the decision tree over the body's kernels.
+A (q)mac first: matmul `A[m,k], B[k,n], C[m,n]`, a following add appends the output pattern once more (gemm), a
+following rescale changes nothing; anything else, or a generic left over before the yield, is `RuntimeError`.
+Any other first kernel: the two-operand rescale-only template over `(m, k)`. -/
+def gemmxTemplate (m n k : Nat) (body : List KOp) : Except Err Template :=
+  match body with
+  | [] => .error .assertion
+  | first :: rest =>
+    if first = .qmac ∨ first = .mac then
+      let b3 : List (Option Nat) := [some m, some n, some k]
+      match rest with
+      | [] => .ok ⟨b3, [opMK, opKN, opMN]⟩
+      | .add :: rest2 =>
+        (match rest2 with
+         | [] => .ok ⟨b3, [opMK, opKN, opMN, opMN]⟩
+         | [.rescale] => .ok ⟨b3, [opMK, opKN, opMN, opMN]⟩
+         | _ => .error .runtime)
+      | .rescale :: rest2 =>
+        (match rest2 with
+         | [] => .ok ⟨b3, [opMK, opKN, opMN]⟩
+         | [.rescale] => .ok ⟨b3, [opMK, opKN, opMN]⟩
+         | _ => .error .runtime)
+      | _ => .error .runtime
+    else if rest = [] then .ok ⟨[some m, some k], [op2, op2]⟩
+    else .error .runtime
 
 end SnaxVerif.Sched
